@@ -43,6 +43,10 @@ pub struct Case {
     /// 20 s linger timer is then pending on the server); 2 does so again every few seconds during the script
     #[serde(default)]
     pub bystander: u8,
+    /// 1: the observed client's address was used before - by a connection the server application dropped
+    /// (Server::drop) while it was established; the observed client connects from that same address shortly afterwards
+    #[serde(default)]
+    pub predecessor: u8,
 }
 
 pub struct C10;
@@ -78,7 +82,7 @@ impl Check for C10 {
             proptest::collection::vec(op, 1..tier.pick(50, 150)),
             (prop_oneof![3 => Just(0u32), 2 => 30u32..600, 1 => 600u32..tier.pick(3600, 7200)], prop_oneof![3 => Just(0u8), 1 => 1u8..4]),
         )
-            .prop_map(|((seed, server_timeout_ms, client_timeout_ms, server_keepalive, client_keepalive), (l0, l1), (syn_lost, synack_lost), period_us, ops, (idle_s, noise))| Case { seed, server_timeout_ms, client_timeout_ms, server_keepalive, client_keepalive, latency_us: [l0, l1], syn_lost, synack_lost, period_us, ops, idle_s, noise, bystander: match seed % 5 { 0 => 1, 1 => 2, _ => 0 } })
+            .prop_map(|((seed, server_timeout_ms, client_timeout_ms, server_keepalive, client_keepalive), (l0, l1), (syn_lost, synack_lost), period_us, ops, (idle_s, noise))| Case { seed, server_timeout_ms, client_timeout_ms, server_keepalive, client_keepalive, latency_us: [l0, l1], syn_lost, synack_lost, period_us, ops, idle_s, noise, bystander: match seed % 5 { 0 => 1, 1 => 2, _ => 0 }, predecessor: ((seed >> 8) % 5 == 0) as u8 })
             .boxed()
     }
 
@@ -91,7 +95,7 @@ impl Check for C10 {
     }
 
     fn rule(&self) -> String {
-        "case = World with one observed real Client and a Server (2 cases in 5 with bystanders: other clients that connect and disconnect before, or every few seconds during, the script - their 20 s linger timers sit in the server's timer queue): generated active_timeout_ms (1..60 s) and keepalive settings on both sides, link latencies 0..300 ms, the first 0..12 SYNs and / or SYN-ACKs lost, a base step cadence of 1 ms..400 ms, then a generated sequence of ticks (0..8 s apart, either endpoint sometimes not stepping), runs of regular stepping, sends in both directions, and blackouts of 0.1..70 s in either or both directions (placing last-frame arrivals and deadlines at arbitrary offsets from the steps), optionally with an undecodable datagram first in line before every server and / or client step, optionally followed by an idle period of up to an hour (two in thorough) on a loss-free link. Oracle per endpoint, with e the time it became active and p the time of the step in which it last processed a valid data / sync / ack frame from its peer: (a) a Timeout on an active connection at step time t requires t - max(e, p) >= active_timeout_ms; (b) the first step with t - max(e, p) >= active_timeout_ms must report it; (c) with keepalive on, on loss-free links and 3*max(interval, 2 s) + 4*(latency + largest step gap) <= active_timeout_ms, no timeout during the idle period; (d) a client whose handshake never completes reports Error(Timeout) no earlier than 22 000 ms after connect() and no later than that plus 12 step gaps, having sent exactly 11 SYNs; the server sends at most 1 + 10 SYN-ACKs per pending entry and reports its handshake timeout no earlier than 22 000 ms after the SYN; (d') SYN-ACK repeats of one pending entry are 2 s apart - not earlier, and not later than 2 s plus two step gaps; (e) a disconnect attempt (disconnect() / disconnect_now() from either side at a generated moment) sends at most 1 + 10 Disconnect frames, 2 s apart (not earlier; not later than 2 s plus two step gaps), and gives up with Error(Timeout) no earlier than 22 000 ms after the first. Non-trivial = a deadline fell within two step gaps of a frame arrival, or the handshake needed at least one retry. Distinct = distinct serialised case.".into()
+        "case = World with one observed real Client and a Server (1 case in 5: the client's address was used shortly before by a connection that the server application dropped with Server::drop while it was established; 2 cases in 5 with bystanders: other clients that connect and disconnect before, or every few seconds during, the script - their 20 s linger timers sit in the server's timer queue): generated active_timeout_ms (1..60 s) and keepalive settings on both sides, link latencies 0..300 ms, the first 0..12 SYNs and / or SYN-ACKs lost, a base step cadence of 1 ms..400 ms, then a generated sequence of ticks (0..8 s apart, either endpoint sometimes not stepping), runs of regular stepping, sends in both directions, and blackouts of 0.1..70 s in either or both directions (placing last-frame arrivals and deadlines at arbitrary offsets from the steps), optionally with an undecodable datagram first in line before every server and / or client step, optionally followed by an idle period of up to an hour (two in thorough) on a loss-free link. Oracle per endpoint, with e the time it became active and p the time of the step in which it last processed a valid data / sync / ack frame from its peer: (a) a Timeout on an active connection at step time t requires t - max(e, p) >= active_timeout_ms; (b) the first step with t - max(e, p) >= active_timeout_ms must report it; (c) with keepalive on, on loss-free links and 3*max(interval, 2 s) + 4*(latency + largest step gap) <= active_timeout_ms, no timeout during the idle period; (d) a client whose handshake never completes reports Error(Timeout) no earlier than 22 000 ms after connect() and no later than that plus 12 step gaps, having sent exactly 11 SYNs; the server sends at most 1 + 10 SYN-ACKs per pending entry and reports its handshake timeout no earlier than 22 000 ms after the SYN; (d') SYN-ACK repeats of one pending entry are 2 s apart - not earlier, and not later than 2 s plus two step gaps; (e) a disconnect attempt (disconnect() / disconnect_now() from either side at a generated moment) sends at most 1 + 10 Disconnect frames, 2 s apart (not earlier; not later than 2 s plus two step gaps), and gives up with Error(Timeout) no earlier than 22 000 ms after the first. Non-trivial = a deadline fell within two step gaps of a frame arrival, or the handshake needed at least one retry. Distinct = distinct serialised case.".into()
     }
 
     fn assumptions(&self) -> Vec<String> {
@@ -139,8 +143,44 @@ impl Check for C10 {
         let mut link = LinkState { latency_us: c.latency_us, ..LinkState::default() };
         link.fates[0] = (0..c.syn_lost).map(|_| Fate::Drop).collect();
         link.fates[1] = (0..c.synack_lost).map(|_| Fate::Drop).collect();
-        let ci = w.add_client(&ccfg, link);
+        let ci = if c.predecessor == 1 {
+            // an earlier connection from the same address, dropped by the server application while established; the
+            // logs are cleared afterwards, so that everything below sees the observed connection only
+            let p = w.add_client(&ccfg, LinkState { latency_us: c.latency_us, ..LinkState::default() });
+            let paddr = w.clients[p].addr;
+            for _ in 0..40 {
+                w.advance(25_000);
+                w.step_server();
+                w.step_client(p);
+            }
+            w.client_send(p, world_payload(c.seed, 7, 0, 200), 0, 3);
+            w.server_send(p, world_payload(c.seed, 8, 0, 200), 0, 3);
+            for _ in 0..20 {
+                w.advance(25_000);
+                w.step_server();
+                w.step_client(p);
+            }
+            let was_active = w.server_client_active(&paddr);
+            if let Some(server) = w.server.as_mut() {
+                server.drop(&paddr);
+            }
+            w.clients[p].client = None;
+            w.advance(400_000);
+            w.step_server();
+            w.discard_undeliverable();
+            w.wire.clear();
+            w.delivered.clear();
+            w.server_events.clear();
+            w.server_steps.clear();
+            if was_active {
+                classes.push("address_of_a_dropped_connection");
+            }
+            w.reincarnate_client(p, &ccfg, link)
+        } else {
+            w.add_client(&ccfg, link)
+        };
         let caddr = w.clients[ci].addr;
+        let t_conn = w.clients[ci].t_connect_us;
         let period = c.period_us.max(1000) as u64;
         let mut steps_c: Vec<(u64, u64)> = Vec::new();
         let mut steps_s: Vec<(u64, u64)> = Vec::new();
@@ -296,10 +336,10 @@ impl Check for C10 {
             if let Some((_, t, e)) = c_events.first() {
                 if matches!(e, CEv::Error(SErr::Timeout)) {
                     let gap = max_gap(&steps_c, 0).max(1000);
-                    if *t + 1000 < HS_BUDGET_US {
+                    if *t + 1000 < t_conn + HS_BUDGET_US {
                         return CaseResult::fail("oracle:c10:handshake_timeout_early:client", format!("client reported handshake Error(Timeout) at t={t} us, before the 22 000 ms retry budget had elapsed ({} SYNs sent)", syns.len()));
                     }
-                    if *t > HS_BUDGET_US + 12 * (gap + 1000) + 1000 {
+                    if *t > t_conn + HS_BUDGET_US + 12 * (gap + 1000) + 1000 {
                         return CaseResult::fail("oracle:c10:handshake_timeout_late:client", format!("client reported handshake Error(Timeout) only at t={t} us (largest step gap {gap} us)"));
                     }
                     if syns.len() != 11 {
@@ -307,7 +347,7 @@ impl Check for C10 {
                     }
                     classes.push("client_handshake_timeout");
                 }
-            } else if !client_cancelled && w.now_us > HS_BUDGET_US + 12 * max_gap(&steps_c, 0).max(1000) + 1_000_000 && steps_c.last().map_or(false, |l| l.1 > HS_BUDGET_US + 12 * max_gap(&steps_c, 0) + 1_000_000) {
+            } else if !client_cancelled && w.now_us > t_conn + HS_BUDGET_US + 12 * max_gap(&steps_c, 0).max(1000) + 1_000_000 && steps_c.last().map_or(false, |l| l.1 > t_conn + HS_BUDGET_US + 12 * max_gap(&steps_c, 0) + 1_000_000) {
                 return CaseResult::fail("oracle:c10:handshake_never_times_out:client", format!("client neither connected nor reported a timeout by t={} us ({} SYNs sent)", w.now_us, syns.len()));
             }
         }
